@@ -57,16 +57,28 @@ Proof.
 Qed.
 
 (* ---- the source side ---- *)
-Definition same_var (y x : var) : bool := beq (v_name y) (v_name x) && Bool.eqb (v_global y) (v_global x).
+(* the variables of a program are its var records: name, scope and type (one name in one scope has one type) *)
+Definition same_var (y x : var) : bool := beq (v_name y) (v_name x) && Bool.eqb (v_global y) (v_global x) && vtype_eqb (v_type y) (v_type x).
 Definition supd (sg : senv) (x : var) (v : value) : senv := fun y => if same_var y x then Some v else sg y.
 
 (* different variables of the program live in different shell variables *)
 Definition names_inj (s : bstate) (xs : list var) : Prop :=
   forall y z, In y xs -> In z xs -> user_name s y = user_name s z -> same_var y z = true.
 
+Lemma dtype_eqb_eq a b : dtype_eqb a b = true -> a = b.
+Proof. destruct a, b; try discriminate; reflexivity. Qed.
+
+(* an assignment of a value of the variable's type keeps the environment well typed *)
+Lemma env_ok_supd sg x v : env_ok sg -> vkind v = dt (v_type x) -> is_slice (v_type x) = false -> in_range v -> env_ok (supd sg x v).
+Proof.
+  intros He Hk Hs Hr y w Hw. unfold supd in Hw. destruct (same_var y x) eqn:Sv; [|exact (He y w Hw)].
+  inversion Hw; subst w. unfold same_var in Sv. apply andb_true_iff in Sv as [_ Ht]. unfold vtype_eqb in Ht.
+  apply andb_true_iff in Ht as [Hd Hsl]. apply dtype_eqb_eq in Hd. apply Bool.eqb_prop in Hsl. rewrite Hd, Hsl. repeat split; assumption.
+Qed.
+
 Lemma same_var_name s y x : same_var y x = true -> user_name s y = user_name s x.
 Proof.
-  unfold same_var, user_name. intro H. apply andb_true_iff in H as [H1 H2]. apply beq_eq in H1. apply Bool.eqb_prop in H2. rewrite H1, H2. reflexivity.
+  unfold same_var, user_name. intro H. apply andb_true_iff in H as [H _]. apply andb_true_iff in H as [H1 H2]. apply beq_eq in H1. apply Bool.eqb_prop in H2. rewrite H1, H2. reflexivity.
 Qed.
 
 (* ---- one assignment ---- *)
